@@ -101,11 +101,21 @@ def build_layer(idx: int, spec: List[Tuple[str, List[int]]], r: random.Random, n
         rqs.append(rq)
         sid = first_const_byte(rq)
         pos_names, neg_names = [], []
-        if sid is not None and r.random() < 0.85:
+        rq_len = {"cc": 2, "ccc": 3, "ccv": 3}.get(shape, 0)
+        sharable = [q for q in prs if q["params"][0]["value"] == ((sid or 0) + 0x40) & 0xFF and
+                    any(x["p"] == "MATCHING-REQUEST-PARAM" for x in q["params"]) and
+                    all(x["req_pos"] + x["len"] <= rq_len for x in q["params"]
+                        if x["p"] == "MATCHING-REQUEST-PARAM")]
+        if sid is not None and sharable and shape in ("cc", "ccc", "ccv") and r.random() < 0.5:
+            # one positive response object used by several services with the same SID: what
+            # its request echo must look like depends on the service it is used for
+            pos_names.append(r.choice(sharable)["name"])
+        elif sid is not None and r.random() < 0.85:
             pr = {"name": f"pr{k}", "for": rq["name"], "shape": "pos", "feat": {"shape": "pos"},
                   "params": [u8const("rsid", (sid + 0x40) & 0xFF)]}
             if shape in ("cc", "ccc", "ccv", "cv", "cvv", "cvc") and r.random() < 0.7:
-                pr["params"].append({"p": "MATCHING-REQUEST-PARAM", "name": "echo", "req_pos": 1, "len": 1})
+                pr["params"].append({"p": "MATCHING-REQUEST-PARAM", "name": "echo", "req_pos": 1,
+                                     "len": 2 if shape == "ccc" and r.random() < 0.5 else 1})
             for j in range(r.randrange(0, 3)):
                 pr["params"].append(p_value(f"r{j}", r.choice(["u8", "u16"])))
             prs.append(pr)
